@@ -36,7 +36,7 @@ BOUNDS = {
     "thorough": "adds 2x2, n_steps_max=2 (1x1, 2x1), n_bisections=1 and error_on_penalty_increase (1x1), symbolic knob weights (1x1)",
 }
 OUTSIDE = "more steps/knobs/targets; float rounding in the tolerance comparison; quality of real LAPACK steps (irrelevant: the claim holds for any step)"
-REQUIRED_CLASSES = ["return", "runtime_error", "user_exception", "restore_checked", "within_tol_checked"]
+REQUIRED_CLASSES = ["return", "runtime_error", "user_exception", "restore_checked", "within_tol_checked", "request_edited"]
 REPLAY_REALS = ["fraction"]
 PROFILE_CASES = 2
 TASKS_PER_CHILD = 10
@@ -56,6 +56,20 @@ def run_case(ex, case):
         calls = list(range(2, 7 + P.NK))
         k = ex.choose(len(calls) + 1)
         P.raise_at = None if k == 0 else calls[k - 1]
+    ed = case.get("edit")
+    if ed:
+        # the request is edited on the existing object after construction (which has already evaluated
+        # the merit function once): solve() must honour the current tolerance / requested value
+        OC.note(ex, "request_edited")
+        if ed == "tol":
+            nt = ex.real("tol_edit")
+            ex.assume(OC.tobool(nt > 0))
+            opt.targets[0].tol = nt
+            P.tols[0] = nt
+        else:
+            nv = ex.real("tval_edit")
+            opt.targets[0].value = nv
+            P.tvals[0] = nv
     dis = case.get("disable")
     if dis:
         if dis[0] == "vary":
@@ -113,6 +127,9 @@ def _base():
         {"tag": "1x1", "nk": 1, "nt": 1, "broyden": True},
         {"tag": "1x1", "nk": 1, "nt": 1, "raise": True},
         {"tag": "1x1", "nk": 1, "nt": 1, "sym_target_values": True, "max_step": True},
+        {"tag": "1x1", "nk": 1, "nt": 1, "edit": "tol"},
+        {"tag": "1x1", "nk": 1, "nt": 1, "edit": "value"},
+        {"tag": "1x1", "nk": 1, "nt": 1, "edit": "tol", "broyden": True},
         {"tag": "2x1", "nk": 2, "nt": 1},
         {"tag": "2x1", "nk": 2, "nt": 1, "disable": ["vary", 1]},
         {"tag": "1x2", "nk": 1, "nt": 2},
